@@ -211,13 +211,21 @@ def _w_creation(task):
                 if prev is not None and err > prev * 0.5:
                     t.violation("uv_sphere: inscribed volume does not approach the smooth value as resolution grows", {"shape": "uv_sphere", "count": cnt}, {"error": err, "previous": prev})
                 prev = err
-        for cnt, h, r in itertools.product(([4, 4], [5, 6], [8, 8], [16, 16]), (1.0, 3.0), (0.5, 1.0)):
+        for cnt, h, r in itertools.product(([4, 4], [5, 6], [5, 8], [7, 7], [8, 8], [9, 5], [16, 16]), (1.0, 3.0), (0.5, 1.0)):
             smooth = np.pi * r * r * h + 4 / 3 * np.pi * r**3
             case = {"shape": "capsule", "count": cnt, "height": h, "radius": r}
             each_placement(lambda T: creation.capsule(height=h, radius=r, count=cnt, transform=T), "capsule", case)
             m = creation.capsule(height=h, radius=r, count=cnt)
             if float(m.volume) > smooth * (1 + 1e-9) or float(m.volume) < smooth * (0.3 if cnt[0] < 8 else (0.8 if cnt[0] < 16 else 0.95)):
                 t.violation("capsule: volume is not that of a tessellation inscribed in the capsule", case, {"got": float(m.volume), "smooth": smooth})
+            # inscribed: every vertex on the smooth capsule surface; the solid is its own mirror image in its mid-plane
+            Vm = np.asarray(m.vertices, dtype=float)
+            dist = np.linalg.norm(Vm - np.column_stack((np.zeros(len(Vm)), np.zeros(len(Vm)), np.clip(Vm[:, 2], -h / 2, h / 2))), axis=1)
+            if np.abs(dist - r).max() > 1e-9:
+                t.violation("capsule: a vertex is not on the capsule surface", case, {"max": float(np.abs(dist - r).max())})
+            key = lambda A: sorted(map(tuple, np.round(A / 1e-9).astype(np.int64).tolist()))
+            if key(Vm) != key(Vm * [1, 1, -1]) or abs(float(m.center_mass[2])) > 1e-9 * (h + r):
+                t.violation(f"capsule: the solid is not symmetric about its mid-plane [{'odd' if cnt[0] % 2 else 'even'} profile count]", case, {"center_mass_z": float(m.center_mass[2])})
             ext = np.ptp(np.asarray(m.vertices), axis=0)
             if abs(ext[2] - (h + 2 * r)) > 1e-9:
                 t.violation("capsule: total length is not height + 2 radius", case, {"got": float(ext[2])})
@@ -336,6 +344,7 @@ def prim_edits(kind):
         "apply_translation(small)": lambda p: p.apply_translation([4e-6, 0, 0]),
         "apply_translation": lambda p: p.apply_translation([1, 2, 3]),
         "copy": lambda p: p.copy(),
+        "copy.deepcopy": lambda p: __import__("copy").deepcopy(p),
         "set transform": lambda p: setattr(p.primitive, "transform", H(t=[5, 5, 5])),
         "set transform (tiny change)": lambda p: setattr(p.primitive, "transform", np.array(p.primitive.transform) + H(t=[3e-6, 0, 0]) - np.eye(4)),
     }
@@ -372,10 +381,21 @@ def _w_primitive(task):
         t.nontrivial_count += 1
         try:
             p = prim_build(kind)
+            copy_bad = None
             for n in hist:
-                r = E[n](p)
-                if n == "copy":
+                if n in ("copy", "copy.deepcopy"):
+                    # the copy is the primitive with the source's parameters: same tessellation as a fresh one built from them
+                    f0 = prim_fresh(p)
+                    r = E[n](p)
+                    Vc, Fc, V0, F0 = np.asarray(r.vertices), np.asarray(r.faces), np.asarray(f0.vertices), np.asarray(f0.faces)
+                    if Vc.shape != V0.shape or Fc.shape != F0.shape or not np.array_equal(Fc, F0) or np.abs(Vc - V0).max() > 1e-9 * (1 + np.abs(V0).max()):
+                        copy_bad = n
                     p = r
+                else:
+                    r = E[n](p)
+            if copy_bad is not None:
+                t.violation(f"the mesh of a primitive's copy does not reflect the parameters of the primitive it was copied from [{kind}; {copy_bad}]", case, {})
+                continue
             f = prim_fresh(p)
             V1, F1 = np.asarray(p.vertices), np.asarray(p.faces)
             V2, F2 = np.asarray(f.vertices), np.asarray(f.faces)
